@@ -278,6 +278,7 @@ func evaluate(r *ev.Run, in *caseIn) (out *caseOut) {
 
 	// --- reference: which credential satisfies which descriptor
 	sat := map[string]map[string]bool{}
+	undecided := map[string]bool{} // (descriptor, credential) pairs the reference does not decide
 	matchable := map[string]bool{}
 	caseUnspec := ""
 	for _, x := range rd.Descs {
@@ -290,6 +291,7 @@ func evaluate(r *ev.Run, in *caseIn) (out *caseOut) {
 			}
 			if u != "" {
 				caseUnspec = string(u)
+				undecided[pair(x.ID, c.key)] = true
 			}
 			sat[x.ID][c.key] = ok
 			if ok {
@@ -302,8 +304,9 @@ func evaluate(r *ev.Run, in *caseIn) (out *caseOut) {
 	}
 
 	// --- descriptor-level probes: the definition reduced to one descriptor, the wallet reduced to one credential
-	if caseUnspec == "" {
-		probeDescriptors(out, in, sat)
+	peSat := probeDescriptors(out, in, sat, undecided)
+	if out.fatal != "" {
+		return
 	}
 
 	// --- wallet side: Match
@@ -364,7 +367,7 @@ func evaluate(r *ev.Run, in *caseIn) (out *caseOut) {
 			selIDs[m.Id] = true
 			selection[pair(m.Id, key)] = true
 			selPairs = append(selPairs, [2]string{m.Id, key})
-			if caseUnspec == "" && !sat[m.Id][key] {
+			if !undecided[pair(m.Id, key)] && !sat[m.Id][key] {
 				out.find("C12/soundness/unsatisfied/"+failClass(rd, x, c), fmt.Sprintf("Match mapped descriptor %s to credential %s (%s) which does not satisfy it", m.Id, key, c.role),
 					map[string]any{"case": defWitness(), "descriptor": m.Id, "credential": c.view})
 			}
@@ -381,7 +384,7 @@ func evaluate(r *ev.Run, in *caseIn) (out *caseOut) {
 				cls := "descriptors"
 				if len(rd.Reqs) > 0 {
 					cls = "submission-requirements"
-					if oneCredentialForSeveralDescriptors(rd, w, selIDs, selPairs, sat) {
+					if oneCredentialForSeveralDescriptors(rd, w, selIDs, selPairs, peSat) {
 						cls = "one-credential-for-several-descriptors"
 					}
 				}
@@ -536,7 +539,7 @@ func evaluate(r *ev.Run, in *caseIn) (out *caseOut) {
 		}
 		if err != nil {
 			cls := shapeClass(e)
-			if caseUnspec == "" && fitsSeveral(rd, selPairs, sat) {
+			if fitsSeveral(rd, selPairs, peSat) {
 				cls = "credential-fits-several-descriptors"
 			}
 			out.find("C12/agreement/validate-rejects-wallet-output/"+cls, "Validate rejects the wallet's own submission: "+firstLine(err),
@@ -742,13 +745,17 @@ func reduceDefinition(in *caseIn, descIdx int, fieldIdx int) []byte {
 	return mustJSON(tree)
 }
 
-func probeDescriptors(out *caseOut, in *caseIn, sat map[string]map[string]bool) {
+// probeDescriptors asks pe itself, pair by pair, whether a credential satisfies a descriptor (definition reduced to that
+// descriptor, wallet reduced to that credential) and compares with the reference where the reference decides. Returns pe's matrix.
+func probeDescriptors(out *caseOut, in *caseIn, sat map[string]map[string]bool, undecided map[string]bool) map[string]map[string]bool {
+	peSat := map[string]map[string]bool{}
 	for di, x := range in.rd.Descs {
+		peSat[x.ID] = map[string]bool{}
 		raw := reduceDefinition(in, di, -1)
 		pd, err := pe.ParsePresentationDefinition(raw)
 		if err != nil {
 			out.fatal = "reduced definition does not parse: " + err.Error()
-			return
+			return peSat
 		}
 		for _, c := range in.w.creds {
 			var err error
@@ -760,7 +767,8 @@ func probeDescriptors(out *caseOut, in *caseIn, sat map[string]map[string]bool) 
 			}
 			out.count("descriptor_probes", 1)
 			peSays := err == nil
-			if peSays == sat[x.ID][c.key] {
+			peSat[x.ID][c.key] = peSays
+			if undecided[pair(x.ID, c.key)] || peSays == sat[x.ID][c.key] {
 				continue
 			}
 			// locate the field on which the two disagree
@@ -791,6 +799,7 @@ func probeDescriptors(out *caseOut, in *caseIn, sat map[string]map[string]bool) 
 			}
 		}
 	}
+	return peSat
 }
 
 // ---- envelopes -------------------------------------------------------------------------------------
